@@ -776,6 +776,8 @@ impl Disk {
                 return Ok((parent_info,FileInfo::create_wildcard(&subdir)));
             }
             let curr = match directory::get_file(&subdir, &files) {
+                // the volume label occupies a directory entry (its name stays taken), but it is not a file
+                Some(finfo) if finfo.volume_id => return Err(Box::new(Error::FileNotFound)),
                 Some(finfo) => finfo.clone(),
                 None => return Err(Box::new(Error::FileNotFound))
             };
